@@ -41,3 +41,5 @@ mod playback;
 mod c21;
 #[path = "/verif/harness/c19.rs"]
 mod c19;
+#[path = "/verif/harness/c20.rs"]
+mod c20;
